@@ -22,7 +22,7 @@ import (
 
 func TestMain(m *testing.M) { kit.Main(m) }
 
-const rule = "tag texts built from literal chunks and placeholders ${k} / ${k:default} (present / absent / present-but-empty-map-or-list keys, nesting ${p.${q}} to depth 3, repetition) over configurations whose string values may themselves contain complete placeholders (chains, diamonds, self and mutual cycles); carried by value (string field), prefix (key selection) and wire (name selection); oracle: recursive reference resolver with an explicit visiting set - acyclic => exactly the resolved text / key / component, cyclic => error or empty, never more than 100x(reference steps)+1000 configuration reads (deterministic hang budget through a counting Binder); non-trivial = >=2 placeholders or a nested one or a configured value that contains a placeholder; distinct by tag text + configuration; since rounds 7/8 also numbers with many digits, numeric-looking defaults (spliced as written), dollar signs, the prop carrier with keys built from placeholders, another App with other values under the same keys, and a priority-ordered post-processor that declines every component"
+const rule = "tag texts built from literal chunks and placeholders ${k} / ${k:default} (present / absent / present-but-empty-map-or-list keys, nesting ${p.${q}} to depth 3, repetition) over configurations whose string values may themselves contain complete placeholders (chains, diamonds, self and mutual cycles); carried by value (string field), prefix (key selection) and wire (name selection); oracle: recursive reference resolver with an explicit visiting set - acyclic => exactly the resolved text / key / component, cyclic => error or empty, never more than 100x(reference steps)+1000 configuration reads (deterministic hang budget through a counting Binder); non-trivial = >=2 placeholders or a nested one or a configured value that contains a placeholder; distinct by tag text + configuration; since rounds 7/8 also numbers with many digits, numeric-looking defaults (spliced as written), dollar signs, the prop carrier with keys built from placeholders, another App with other values under the same keys, and a priority-ordered post-processor that declines every component; command-line values containing '='"
 
 // ---- counting binder (deterministic termination budget) ------------------------------------------
 
